@@ -192,7 +192,12 @@ class Runner(object):
             return None
         if t == "append":
             _, ph, l, xh = op
-            getattr(self.obj(ph), LIST_ATTR[l]).append(self.obj(xh))
+            lst = getattr(self.obj(ph), LIST_ATTR[l])
+            try:
+                self.append_info = [self.obj(xh).id, any(y.id == self.obj(xh).id for y in lst)]
+            except Exception:
+                self.append_info = None
+            lst.append(self.obj(xh))
             return None
         if t == "remove":
             _, ph, l, k = op
@@ -584,6 +589,7 @@ class Runner(object):
     def run_op(self, op):
         self.oracle = "n/a"
         self.copy_event = None
+        self.append_info = None
         tid = None
         if op[0] in ("set_attr", "set_link", "force", "append", "remove", "create", "create_mtag", "create_feature", "delete") \
                 and op[1] < len(self.handles):
@@ -614,6 +620,8 @@ class Runner(object):
         w, info = nixwalk.walk_info(self.f, self.with_times, ids)
         self.last_defined = info.pop("_defined_set")
         self.last_all_ids = set(ids)
+        if self.append_info is not None:
+            info["append"] = self.append_info
         if self.track_pairs:
             info["copy"] = self.copy_event
             if op[0] == "reopen":
@@ -1010,6 +1018,8 @@ def replay_history(ops, workdir, with_times, k=0):
 
 def main():
     req = json.load(sys.stdin)
+    real_stdout = sys.stdout
+    sys.stdout = sys.stderr            # the library prints a message on some refusals
     wd = os.getcwd()
     out = []
     if "replay" in req:
@@ -1019,7 +1029,7 @@ def main():
         for k in range(req["n"]):
             out.append(gen_history(req["seed"] * 100003 + k, req["len"], req.get("profile", {}), wd,
                                    req.get("times", False), k))
-    json.dump(out, sys.stdout)
+    json.dump(out, real_stdout)
 
 
 if __name__ == "__main__":
